@@ -61,7 +61,14 @@ def case_s(draw, only_cls: str | None = None) -> dict[str, Any]:
             rk = "echo-changed"
     if rk == "genuine":
         if kind == "raw":
-            rk = "neg-same"
+            # a service the codec has no classes for: the only thing that identifies a genuine positive reply is its response id;
+            # what follows need not repeat the request bytes (0x2A answers with the bare id, 0x87 / 0x83 without the suppress bit)
+            if req[0] in UNMODELLED_SIDS and req[0] + 0x40 <= 0xFF and req[0] + 0x40 != 0x7F:
+                how = draw(st.sampled_from(["bare", "tail", "echo-without-suppress-bit", "echo-and-more"]))
+                body = {"bare": b"", "tail": tail, "echo-without-suppress-bit": bytes([b & 0x7F for b in req[1:2]]) + req[2:], "echo-and-more": req[1:] + tail}[how]
+                reply = bytes([req[0] + 0x40]) + body
+            else:
+                rk = "neg-same"
         else:
             reply = refcodec.REQ[cls].reply(kw, tail) if refcodec.REQ[cls].reply else None
             if reply is None:
